@@ -45,7 +45,10 @@ def norm_e(e):
 def norm_dim(d):
     if d[0] == "ix":
         return ("ix", norm_e(d[1]))
-    return ("rng", None if d[1] is None else norm_e(d[1]), None if d[2] is None else norm_e(d[2])) + tuple(d[3:])
+    step = tuple(norm_e(x) for x in d[3:])
+    if step == (("lit", 1),):
+        step = ()
+    return ("rng", None if d[1] is None else norm_e(d[1]), None if d[2] is None else norm_e(d[2])) + step
 
 
 def norm_s(ss):
@@ -73,7 +76,11 @@ def canon_secs(ss, bnds):
         ds = []
         for d, (lb, ub) in zip(a[2], bnds[a[1]]):
             if d[0] == "rng":
-                d = ("rng", None if d[1] == ("lit", lb) else d[1], None if d[2] == ("lit", ub) else d[2]) + tuple(d[3:])
+                st = tuple(d[3:])
+                if st == (("lit", 1),):
+                    st = ()
+                # (bounds equal to the declared ones are only dropped for forward sections, as the reader does)
+                d = ("rng", None if d[1] == ("lit", lb) else d[1], None if d[2] == ("lit", ub) else d[2]) + st
             ds.append(d)
         return ("sec", a[1], ds)
     out = []
@@ -335,6 +342,9 @@ class Frame:
             for d in dims:
                 if d[0] == "fix":
                     out.append(d[1])
+                elif d[0] == "lin":              # strided section: x(k) is a(lo + (k - lb_x) * stride)
+                    out.append(d[1] + (ix[j] - d[3]) * d[2])
+                    j += 1
                 else:
                     out.append(ix[j] + d[1])
                     j += 1
@@ -463,8 +473,6 @@ def bind_call(case, actuals, fr, S):
             if fr.b is not None:
                 raise NonConforming("nested calls unsupported")
             g, dims = a[1], a[2]
-            if any(len(d) > 3 for d in dims):
-                raise NonConforming("strided section unsupported")
             ab = fr.bounds(S, g)
             if len(ab) != len(dims):
                 raise NonConforming("rank")
@@ -480,10 +488,16 @@ def bind_call(case, actuals, fr, S):
             else:
                 lo = lb if d[1] is None else ev(d[1], fr, S)
                 hi = ub if d[2] is None else ev(d[2], fr, S)
-                if S.strict and hi >= lo and not (lb <= lo and hi <= ub):
-                    raise NonConforming("section out of bounds")
-                vd.append(("rng", lo))
-                ext.append(max(0, hi - lo + 1))
+                step = ev(d[3], fr, S) if len(d) > 3 else 1
+                if step == 0:
+                    raise NonConforming("zero stride")
+                n_el = max(0, mf._quot(hi - lo + step, step))
+                if S.strict and n_el > 0:
+                    last = lo + (n_el - 1) * step
+                    if not (lb <= lo <= ub and lb <= last <= ub):
+                        raise NonConforming("section out of bounds")
+                vd.append(("rng", lo, step))
+                ext.append(n_el)
         if len(ext) != len(fdims):
             raise NonConforming("rank mismatch")
         fb, vdims, j = [], [], 0
@@ -499,7 +513,7 @@ def bind_call(case, actuals, fr, S):
                 if S.strict and fd[2] - flb + 1 > ext[j]:
                     raise NonConforming("explicit-shape formal larger than actual")
                 fb.append((flb, fd[2]))
-            vdims.append(("off", d[1] - flb))
+            vdims.append(("off", d[1] - flb) if d[2] == 1 else ("lin", d[1], d[2], flb))
             j += 1
         b[fn] = ("view", g, vdims, fb)
     for ln, lb, flag in case["locals"]:
@@ -837,7 +851,7 @@ def encode_callsite(case, nm, own_names=None, outer_names=None):
             ds = []
             for k, v in dims_of_actual(case, a):
                 ds.append("DFull (%d)" % v if k == "full" else "D%s %s" % ("Fix" if k == "fix" else "From", mf.expr_to_coq(v, nm)))
-            acts.append("(AArr %d%%nat [%s] %s)" % (nm.get(a[1]), "; ".join(ds), "true" if all(len(d) == 3 for d in a[2] if d[0] == "rng") else "false"))
+            acts.append("(AArr %d%%nat [%s] %s)" % (nm.get(a[1]), "; ".join(ds), "true" if all(len(d) == 3 or d[3] == ("lit", 1) for d in a[2] if d[0] == "rng") else "false"))
         else:
             acts.append("(AExpr %s)" % mf.expr_to_coq(a, nm))
     locs = "; ".join("(%d%%nat, %s)" % (nm.get(ln), "true" if flag == "save" else "false") for ln, _, flag in case["locals"])
